@@ -23,7 +23,7 @@ def ref_cats():
     return out
 
 
-def apply(ctx, which, what, host=None, path=None):
+def apply(ctx, which, what, host=None, path=None, via_std=False, tag="prog"):
     """which: name of a progdiff function; what: words for the violation message"""
     rep = ctx.rep
     rng = random.Random(ctx.seed + 17)
@@ -31,7 +31,7 @@ def apply(ctx, which, what, host=None, path=None):
     fn = getattr(progdiff, which)
     n = 0
     heavy_versions = set(core.ORACLES) if ctx.thorough else {(2, 7), (3, 8), (3, 11), (3, 13)}
-    for v, name, o, im in progcheck.run_programs(rng, 3 if not ctx.thorough else 40, host=host, path=path):
+    for v, name, o, im in progcheck.run_programs(rng, 3 if not ctx.thorough else 40, host=host, path=path, via_std=via_std):
         if name in HEAVY and v not in heavy_versions:
             continue
         n += 1
@@ -44,9 +44,40 @@ def apply(ctx, which, what, host=None, path=None):
         rep.count(len(o.get("codes", [])), ("prog", v, name))
         for key, msg, rp in res:
             src = progcheck.program_set(random.Random(ctx.seed + 17), 3 if not ctx.thorough else 40).get(name, "")
-            rep.violation("prog:%d.%d:%s:%s" % (v[0], v[1], name, key),
+            rep.violation("%s:%d.%d:%s:%s" % (tag, v[0], v[1], name, key),
                           "%s differs from CPython %d.%d for program %r: %s" % (what, v[0], v[1], name, msg),
                           dict(rp, program=name, version=list(v), source=src[:1500], pyc=o.get("pyc", "")[:200000],
                                how="compile the source with that CPython, load the .pyc with xdis.load.load_module, compare"))
     rep.sample({"programs_x_versions": n, "comparison": which})
+    return n
+
+
+def apply_many(ctx, specs, host=None, path=None, via_std=False):
+    """specs: list of (progdiff function name, words, key tag) evaluated in ONE pass over the programs"""
+    rep = ctx.rep
+    rng = random.Random(ctx.seed + 17)
+    cats = ref_cats()
+    n = 0
+    heavy_versions = set(core.ORACLES) if ctx.thorough else {(2, 7), (3, 8), (3, 11), (3, 13)}
+    ngen = 3 if not ctx.thorough else 40
+    srcs = progcheck.program_set(random.Random(ctx.seed + 17), ngen)
+    for v, name, o, im in progcheck.run_programs(rng, ngen, host=host, path=path, via_std=via_std):
+        if name in HEAVY and v not in heavy_versions:
+            continue
+        n += 1
+        rep.count(len(o.get("codes", [])), ("prog", v, name, via_std, path, host))
+        for which, what, tag in specs:
+            fn = getattr(progdiff, which)
+            if which == "diff_argvals":
+                res = fn(v, name, o, im, cats[v][0])
+            elif which == "diff_labels":
+                res = fn(v, name, o, im, cats[v][1])
+            else:
+                res = fn(v, name, o, im)
+            for key, msg, rp in res:
+                rep.violation("%s:%d.%d:%s:%s" % (tag, v[0], v[1], name, key),
+                              "%s differs from CPython %d.%d for program %r: %s" % (what, v[0], v[1], name, msg),
+                              dict(rp, program=name, version=list(v), source=srcs.get(name, "")[:1500], pyc=o.get("pyc", "")[:200000],
+                                   how="compile the source with that CPython, load the .pyc with xdis.load.load_module, compare"))
+    rep.sample({"programs_x_versions": n, "comparisons": [s[0] for s in specs], "via_std": via_std, "path": path, "host": host})
     return n
